@@ -40,6 +40,13 @@ def generate(rng, tier, index):
     im = wp["images"][k]
     pre = [select.gen_selection(rng, im["lines"], im["pixels"])
            for _ in range(rng.choice([0, 1, 2, 3]))]
+    # canonical partial reads in front of the random ones: strided line selections whose start is
+    # not a multiple of the step (they cross request-size groups at changing phases), forwards
+    # and backwards (detection of seeded-C06-agent14 depended on the seed without them)
+    if im["lines"] >= 3:
+        pre = [{"kind": "isel", "rows": {"slice": [1, None, 2]}},
+               {"kind": "isel", "rows": {"slice": [2, None, 3]}},
+               {"kind": "isel", "rows": {"slice": [None, 0, -2]}}] + pre
     plan = {"world": wp, "rpcs": rpcs, "cached": rng.random() < 0.4, "pre_image": k,
             "pre_reads": pre,
             "concurrent_opens": rng.randrange(1, 2**31) if rng.random() < 0.35 else None}
